@@ -414,7 +414,7 @@ func (l *lexer) Error(s string) {
 	switch {
 	case strings.HasPrefix(s, "syntax error: "):
 		s = s[14:]
-		if l.err != nil && s == "unexpected EOF" {
+		if l.err != nil && strings.HasPrefix(s, "unexpected EOF") {
 			return // lexing was interrupted
 		}
 	case strings.HasPrefix(s, "runtime error: "):
